@@ -14,10 +14,12 @@ KSI_IMPORT_TLV_TEMPLATE(KSI_PublicationRecord);
 
 enum { R_CORRECT = 0, R_WRONG_ID, R_WRONG_AGGR_TIME, R_WRONG_PUB_TIME, R_SHAPE, R_OTHER_INPUT, R_RIGHT_ALTERED, R_RIGHT_REMOVED, R_RIGHT_ADDED,
        R_LEFT_ALTERED, R_STATUS, R_ERROR_PDU, R_BAD_MAC, R_NO_CHAIN, R_NO_AGGR_TIME_FIELD, R_OTHER_VERSION, R_EMPTY,
-       R_EXTRA_RIGHT_LOWEST, R_EXTRA_LEFT_LOWEST, R_EXTRA_RIGHT_HIGHEST, R_DROP_LOWEST, R_NREPLY };
+       R_EXTRA_RIGHT_LOWEST, R_EXTRA_LEFT_LOWEST, R_EXTRA_RIGHT_HIGHEST, R_DROP_LOWEST,
+       R_NOSTATUS_WRONG_ID, R_NOSTATUS_WRONG_PUB_TIME, R_NOSTATUS_WRONG_AGGR_TIME, R_ERROR_WITH_RESPONSE, R_NREPLY };   /* R_NOSTATUS_*: the reply has no status element at all and deviates otherwise */
 static const char *RNAME[R_NREPLY] = {"correct", "wrong-id", "wrong-aggr-time", "wrong-pub-time", "shape", "other-input", "right-altered", "right-removed",
                                       "right-added", "left-altered", "status", "error-pdu", "bad-mac", "no-chain", "no-aggr-time-field", "other-version", "empty",
-                                      "extra-right-lowest", "extra-left-lowest", "extra-right-highest", "drop-lowest"};
+                                      "extra-right-lowest", "extra-left-lowest", "extra-right-highest", "drop-lowest",
+                                      "no-status-wrong-id", "no-status-wrong-pub-time", "no-status-wrong-aggr-time", "error-payload-with-response"};
 static const uint64_t STATUSES[] = {0x0101, 0x0102, 0x0103, 0x0104, 0x0105, 0x0106, 0x0107, 0x0200, 0x0201, 0x0202, 0x0300, 0x0301, 0x999,
                                    0x100000000ULL, 0x8000000000000000ULL, 0xffffffff00000000ULL, 0x100000101ULL};   /* wider than 32 bits */
 #define NSTATUS ((int)(sizeof STATUSES / sizeof *STATUSES))
@@ -64,9 +66,9 @@ static void handler(const unsigned char *req, size_t n, vbuf *resp, void *user) 
 		goto done;
 	}
 	switch (S.reply) {
-		case R_WRONG_ID: id += 1; break;
-		case R_WRONG_AGGR_TIME: if (t + 1 <= P) t += 1; else t -= 1; break;
-		case R_WRONG_PUB_TIME: P += 1; break;
+		case R_WRONG_ID: case R_NOSTATUS_WRONG_ID: id += 1; break;
+		case R_WRONG_AGGR_TIME: case R_NOSTATUS_WRONG_AGGR_TIME: if (t + 1 <= P) t += 1; else t -= 1; break;
+		case R_WRONG_PUB_TIME: case R_NOSTATUS_WRONG_PUB_TIME: P += 1; break;
 		case R_BAD_MAC: e.flags |= RP_F_BAD_MAC; S.envelope_ok = 0; break;
 		case R_OTHER_VERSION: e.version = r.version == 2 ? 1 : 2; S.envelope_ok = 0; break;
 		case R_STATUS: S.envelope_ok = 0; break;
@@ -94,7 +96,9 @@ static void handler(const unsigned char *req, size_t n, vbuf *resp, void *user) 
 	}
 	S.sent_cal = cal; S.have_cal = 1; S.sent_id = id;
 	if (S.reply != R_NO_CHAIN) rs_serialize_cal(&cal, &calb); else S.have_cal = 0;
-	rp_ext_resp_payload(&payload, e.version, id, 1, S.reply == R_STATUS ? STATUSES[S.sub % NSTATUS] : 0, S.reply == R_STATUS ? "refused" : NULL, 1, PHEAD, calb.p, calb.n);
+	if (S.reply == R_ERROR_WITH_RESPONSE) { S.envelope_ok = 0; if (S.sub % 2) rp_error_payload(&payload, e.version, RP_EXT, 0x0300, "upstream error"); }   /* an error payload next to the correct response */
+	rp_ext_resp_payload(&payload, e.version, id, S.reply < R_NOSTATUS_WRONG_ID || S.reply == R_ERROR_WITH_RESPONSE, S.reply == R_STATUS ? STATUSES[S.sub % NSTATUS] : 0, S.reply == R_STATUS ? "refused" : NULL, 1, PHEAD, calb.p, calb.n);
+	if (S.reply == R_ERROR_WITH_RESPONSE && S.sub % 2 == 0) rp_error_payload(&payload, e.version, RP_EXT, 0x0101, "invalid request");
 	rp_wrap_response(resp, &e, payload.p, payload.n);
 done:
 	vb_free(&calb); vb_free(&payload);
@@ -475,13 +479,13 @@ static void run(void) {
 	for (iface = 0; iface < 4; iface++) for (tr = 0; tr < 2; tr++) for (ver = 2; ver >= 1; ver--)
 	for (tail = 0; tail <= 3; tail++) for (nch = 1; nch <= 2; nch++) for (target = 0; target < 4; target++) for (pubrec = 0; pubrec < 4; pubrec++)
 	for (reply = 0; reply < R_NREPLY; reply++) {
-		int nsub = (reply == R_STATUS || reply == R_ERROR_PDU) ? NSTATUS : reply == R_RIGHT_ALTERED ? 3 : 1;
+		int nsub = (reply == R_STATUS || reply == R_ERROR_PDU) ? NSTATUS : reply == R_RIGHT_ALTERED ? 3 : reply == R_ERROR_WITH_RESPONSE ? 2 : 1;
 		if (iface == 0 && pubrec != 0) continue;                 /* extendTo takes a time, not a record */
 		if (iface != 0 && (target == 1 || target == 3)) continue; /* a record's time is its own target */
 		if (iface != 0 && pubrec == 0 && target != 0) continue;
 		if (nch == 2 && !(tail == 1 && VF_THOROUGH)) continue;
 		if (iface == 3 && (ver == 1 || (!VF_THOROUGH && tr == 1))) continue;    /* HA service: PDU v2 (quick: TCP endpoints) */
-		if (ver == 1 && !(reply <= R_WRONG_ID || reply == R_OTHER_VERSION || reply == R_RIGHT_ALTERED)) continue;
+		if (ver == 1 && !(reply <= R_WRONG_ID || reply == R_OTHER_VERSION || reply == R_RIGHT_ALTERED || reply == R_NOSTATUS_WRONG_ID)) continue;
 		if (!VF_THOROUGH) {
 			if (tr == 1 && reply > R_WRONG_ID && reply != R_RIGHT_ALTERED) continue;
 			if ((tail == 0 || tail == 2) && !(reply == R_CORRECT || reply == R_RIGHT_ALTERED || reply == R_OTHER_INPUT || reply == R_SHAPE || reply >= R_EXTRA_RIGHT_LOWEST)) continue;
